@@ -247,7 +247,7 @@ static int parse_equ(AsmContext *asm_context)
     return -1;
   }
 
-  macros_append(asm_context, name, value, 0);
+  if (macros_append(asm_context, name, value, 0) != 0) { return -1; }
 
   asm_context->tokens.line++;
 
